@@ -1,0 +1,74 @@
+//go:build verif
+
+// Contracts for package auditlog, round 4: writer initialisation and the JSON formatters (C19, C20), checked by
+// /verif/govc (comment-only file; no code). Trusted specs: /verif/specs/http2.spec (os.OpenFile, log.New, json.Marshal).
+package auditlog
+
+// ---------------------------------------------------------------- serial writer Init (C20)
+// No target configured: the writer stays a no-op (the formatter is left alone, so Write of a new writer does nothing),
+// no file is opened. /dev/stdout, /dev/stderr: no file is opened, the formatter is installed. Any other target:
+// exactly one os.OpenFile; its error is RETURNED and the writer is left without a formatter change (still a no-op);
+// on success the formatter is installed.
+//@ func (*serialWriter).Init props C19,C20,C07
+//@   requires recv: sl != nil
+//@   modifies inferred, openCalls, lastOpenErr
+//@   ensures noTarget: c.Target == "" ==> isnil(result) && openCalls == old(openCalls) && sl.formatter == old(sl.formatter)
+//@   ensures stdStreams: c.Target == "/dev/stdout" || c.Target == "/dev/stderr" ==> isnil(result) && openCalls == old(openCalls) && sl.formatter == c.Formatter
+//@   ensures opensOnce: c.Target != "" && c.Target != "/dev/stdout" && c.Target != "/dev/stderr" ==> openCalls == old(openCalls) + 1
+//@   ensures openError: c.Target != "" && c.Target != "/dev/stdout" && c.Target != "/dev/stderr" && !isnil(lastOpenErr) ==>
+//@       result == lastOpenErr && sl.formatter == old(sl.formatter)
+//@   ensures opened: c.Target != "" && c.Target != "/dev/stdout" && c.Target != "/dev/stderr" && isnil(lastOpenErr) ==>
+//@       isnil(result) && sl.formatter == c.Formatter
+//@   ensures closerSet: !isnil(sl.Closer)
+//@   ensures errorMeansOpen: !isnil(result) ==> openCalls == old(openCalls) + 1 && result == lastOpenErr
+
+// ---------------------------------------------------------------- concurrent writer Init (C20)
+// No target: no-op writer, nothing opened. Otherwise exactly one os.OpenFile of the index file; its error is RETURNED;
+// on success the writer is ready for Write (lock and index logger allocated, lock free: the `initialised` / `lockFree`
+// preconditions of (concurrentWriter).Write).
+//@ func (*concurrentWriter).Init props C19,C20,C07
+//@   requires recv: cl != nil
+//@   modifies inferred, openCalls, lastOpenErr
+//@   ensures noTarget: c.Target == "" ==> isnil(result) && openCalls == old(openCalls) && cl.formatter == old(cl.formatter) && !isnil(cl.Closer)
+//@   ensures opensOnce: c.Target != "" ==> openCalls == old(openCalls) + 1
+//@   ensures openError: c.Target != "" && !isnil(lastOpenErr) ==> result == lastOpenErr
+//@   ensures opened: c.Target != "" && isnil(lastOpenErr) ==> isnil(result) && cl.formatter == c.Formatter && !isnil(cl.Closer) &&
+//@       cl.logDir == c.Dir && cl.logDirMode == c.DirMode && cl.logFileMode == c.FileMode
+//@   ensures ready: c.Target != "" && isnil(result) ==> cl.mux != nil && cl.log != nil && !cl.mux.held && cl.mux.readers == 0 && cl.log.writes == 0
+//@   ensures errorMeansOpen: !isnil(result) ==> openCalls == old(openCalls) + 1 && result == lastOpenErr
+// a writer whose Init failed must not be left half-armed: with a formatter installed Write goes on to use the index
+// logger, which only exists after a successful OpenFile
+//@   ensures neverHalfArmed: !isnil(cl.formatter) && isnil(old(cl.formatter)) ==> cl.mux != nil && cl.log != nil
+
+// ---------------------------------------------------------------- JSON formatters (C19: one JSON document per line)
+// The record is what encoding/json makes of it, in ONE Marshal call: a Marshal error is returned with no output,
+// otherwise the output is non-empty and contains no raw newline (so that Println's terminator is the only one).
+//@ func (jsonFormatter).Format props C19,C20,C07
+//@   modifies marshalCalls, lastMarshalErr
+//@   ensures once: marshalCalls == old(marshalCalls) + 1
+//@   ensures marshalError: !isnil(lastMarshalErr) ==> result1 == lastMarshalErr && len(result0) == 0
+//@   ensures oneLine: isnil(lastMarshalErr) ==> isnil(result1) && len(result0) > 0 && (forall k int :: 0 <= k && k < len(result0) ==> result0[k] != 10)
+
+//@ func (legacyJSONFormatter).Format props C19,C20,C07 nosafety
+//@   requires rec: !isnil(al)
+//@   modifies inferred, marshalCalls, lastMarshalErr
+//@   ensures once: marshalCalls == old(marshalCalls) + 1
+//@   ensures marshalError: !isnil(lastMarshalErr) ==> result1 == lastMarshalErr && len(result0) == 0
+//@   ensures oneLine: isnil(lastMarshalErr) ==> isnil(result1) && len(result0) > 0 && (forall k int :: 0 <= k && k < len(result0) ==> result0[k] != 10)
+//@   loop 1
+//@     invariant marshalKept1: marshalCalls == old(marshalCalls)
+//@   loop 2
+//@     invariant marshalKept2: marshalCalls == old(marshalCalls)
+//@   loop 3
+//@     invariant marshalKept3: marshalCalls == old(marshalCalls)
+
+// ---------------------------------------------------------------- native formatter (C19)
+// No part selected: no record at all (the writers then write nothing). The formatter never fails.
+// UNPROVED: balanced sections (one "--<id>-<part>--" line per element of the parts list, in list order, same id): needs
+// UNPROVED: prefix-preservation invariants through the eight inner loops; not attempted in this round.
+//@ func (nativeFormatter).Format props C19,C07 nosafety
+//@   requires rec: !isnil(al)
+// (sequential view, as for NewTransaction: the boundary id generator takes a package-level mutex)
+//@   requires noLockHeld: forall mx *sync.Mutex :: !mx.held
+//@   ensures empty: alPartsLen(al) == 0 ==> len(result0) == 0
+//@   ensures neverFails: isnil(result1)
